@@ -1,3 +1,4 @@
 """Imports every catalogue module (registers all cells)."""
 import props.catalog  # noqa: F401
 import props.catalog_vm  # noqa: F401
+import props.catalog_types  # noqa: F401
